@@ -151,6 +151,7 @@ type Exec struct {
 	nAsserts     int
 	nWitness     int
 	floor        int
+	pathViolated bool
 	strictInit   map[*ssa.Package]bool
 	initSkips    []string
 	funcsSeen    map[string]bool
@@ -585,6 +586,7 @@ func (e *Exec) resetPath() {
 	e.steps = 0
 	e.reached = map[string]bool{}
 	e.obs = nil
+	e.pathViolated = false
 	e.knownRegion = ""
 	e.objSeq = 1 << 20
 	e.workAlloc = e.tb.BVu(0, 64)
@@ -618,7 +620,10 @@ func (e *Exec) runPath(fn *ssa.Function, args []Value) (res PathResult) {
 			case *goPanic:
 				res.Status = "panic"
 				res.Msg = x.msg + " at " + x.site
-				if !e.h.ExpectPanic {
+				if e.pathViolated && strings.Contains(x.site, "zz_verif_") {
+					// the harness itself tripped after one of its assertions had already failed
+					res.Status = "stop"
+				} else if !e.h.ExpectPanic {
 					e.stack = e.stack[:0]
 					e.reportViolationStack("panic", "no-panic: "+x.msg, x.site, x.stack)
 				}
@@ -634,7 +639,7 @@ func (e *Exec) runPath(fn *ssa.Function, args []Value) (res PathResult) {
 	res.Status = "ok"
 	// a few completed paths are turned into concrete witnesses that the driver
 	// replays natively: the real build must take the same path (validates the encoding)
-	if e.nWitness < 3 && len(e.reached) > 0 {
+	if e.nWitness < 3 && len(e.reached) > 0 && !e.pathViolated {
 		e.nWitness++
 		n := len(e.violations)
 		e.knownRegion = ""
